@@ -122,34 +122,7 @@ theorem sameSet_of_iff {a b : List Nat} (h : ∀ n, n ∈ a ↔ n ∈ b) : sameS
   simp only [sameSet, Bool.and_eq_true, List.all_eq_true, List.contains_iff_mem]
   exact ⟨fun x hx => (h x).mp hx, fun x hx => (h x).mpr hx⟩
 
-theorem spec_trace (cfg : Cfg) (ops : List Op) : ∀ (s : St) (idx : Nat), Inv cfg s →
-    wfGo cfg s ops = true → specGo cfg s.tree s.members idx (comp.trace cfg s ops) = .ok := by
-  induction ops with
-  | nil => intro s idx _ _; rfl
-  | cons op ops ih =>
-    intro s idx hi hwf
-    simp only [wfGo] at hwf
-    cases hn : next cfg s op with
-    | none => rw [hn] at hwf; cases hwf
-    | some p =>
-      obtain ⟨s', ns⟩ := p
-      rw [hn] at hwf
-      simp only at hwf
-      obtain ⟨hinv, ha, hv, ht⟩ := next_inv hi hn
-      have hstep : comp.step cfg s op = (s', obsOf cfg false ns s') := by
-        simp only [comp, step, hn]
-      simp only [TComp.trace, hstep, specGo]
-      have hobs : (obsOf cfg false ns s').notes = ns := rfl
-      have hquiet : (obsOf cfg false ns s').quiet = s'.quiet := rfl
-      rw [hobs, firstBad_none ha, hquiet, hv, ← ht]
-      simp only
-      have hcond : (if s'.quiet = true then viewVerdict idx s'.members (s'.tree.present cfg.lim) else .ok)
-          = Verdict.ok := by
-        cases hq : s'.quiet with
-        | false => rfl
-        | true => simp only [if_true]; exact viewVerdict_ok (quiet_members hinv hq)
-      rw [hcond]
-      simp only
-      exact ih s' (idx + 1) hinv hwf
+/- `spec_trace` (the model's history satisfies the executable specification) is in
+   Proofs/ServerSetKeys.lean: it needs the Member-equality invariant as well. -/
 
 end Scales.ServerSet
